@@ -32,6 +32,9 @@
 #include <xercesc/parsers/XercesDOMParser.hpp>
 #include <xercesc/parsers/DOMLSParserImpl.hpp>
 #include <xercesc/framework/MemBufInputSource.hpp>
+#include <xercesc/framework/LocalFileInputSource.hpp>
+#include <xercesc/framework/URLInputSource.hpp>
+#include <xercesc/framework/StdInInputSource.hpp>
 #include <xercesc/framework/Wrapper4InputSource.hpp>
 #include <xercesc/framework/XMLPScanToken.hpp>
 #include <xercesc/framework/XMLGrammarPoolImpl.hpp>
@@ -50,6 +53,9 @@
 #include <algorithm>
 #include <functional>
 #include <unistd.h>
+#include <sys/stat.h>
+#include <sys/wait.h>
+#include <fcntl.h>
 
 using namespace XERCES_CPP_NAMESPACE;
 
@@ -667,6 +673,22 @@ struct LSErr : public DOMErrorHandler { bool handleError(const DOMError&) { retu
 // runParse: one parse described by a request; returns the CED.
 //   fields: api, feat, doc, sysid, chunks, loc, throwat, filter, ent:<id>
 // ---------------------------------------------------------------------------------------------
+// per-process scratch directory for file/URL input sources (removed by the driver's TMPDIR cleanup / at exit)
+static std::string& scratchDir() {
+    static std::string d;
+    if (d.empty()) {
+        const char* t = getenv("TMPDIR"); std::string base = t && *t ? t : "/tmp";
+        char b[256]; snprintf(b, sizeof b, "%s/verif.xv.%d", base.c_str(), (int)getpid());
+        mkdir(b, 0700); d = b;
+    }
+    return d;
+}
+static std::string writeScratch(const std::string& name, const std::string& data) {
+    std::string p = scratchDir() + "/" + name;
+    FILE* f = fopen(p.c_str(), "wb"); if (f) { if (!data.empty()) fwrite(data.data(), 1, data.size(), f); fclose(f); }
+    return p;
+}
+
 struct ParseOut { std::string ced; long nEvents = 0, nChars = 0, nErr = 0, nFatal = 0; long reads = 0; std::vector<std::string> rlog; };
 
 static void runParse(const Req& r, ParseOut& po, XMLGrammarPool* pool = 0, MemoryManager* mm = XMLPlatformUtils::fgMemoryManager) {
@@ -681,7 +703,16 @@ static void runParse(const Req& r, ParseOut& po, XMLGrammarPool* pool = 0, Memor
     SecurityManager sm; long lim = f.i("secmgr", -1); if (lim >= 0) sm.setEntityExpansionLimit((XMLSize_t)lim);
     SecurityManager* smp = lim >= 0 ? &sm : 0;
     X sysx(sysid);
-    ChunkSource src(doc, plan, sysx.c()); src.first = (size_t)geti(r, "chunk1", 0);
+    ChunkSource csrc(doc, plan, sysx.c()); csrc.first = (size_t)geti(r, "chunk1", 0);
+    // source type: custom (application-defined InputSource, default) | mem | file | url | stdin
+    std::string srcKind = get(r, "src", "custom");
+    InputSource* srcOwned = 0;
+    if (srcKind == "mem") srcOwned = new MemBufInputSource((const XMLByte*)doc.data(), doc.size(), sysx.c(), false);
+    else if (srcKind == "file") { std::string p = writeScratch("doc.xml", doc); srcOwned = new LocalFileInputSource(X(p).c()); }
+    else if (srcKind == "url") { std::string p = writeScratch("doc.xml", doc); srcOwned = new URLInputSource(XMLURL(X("file://" + p).c())); }
+    else if (srcKind == "stdin") srcOwned = new StdInInputSource();
+    InputSource& src = srcOwned ? *srcOwned : (InputSource&)csrc;
+    struct SrcJan { InputSource* p; ~SrcJan() { delete p; } } srcJan = { srcOwned };
     if (f.has("forceenc")) src.setEncoding(X(f.s("forceenc")).c());
     bool useRes = !st.ents.empty() || f.b("resolver", false);
     long steps = geti(r, "steps", -1);   // progressive: abandon after this many parseNext calls (-1: run to end)
@@ -730,7 +761,7 @@ static void runParse(const Req& r, ParseOut& po, XMLGrammarPool* pool = 0, Memor
     }
     XV_CATCH_ALL(d)
     po.ced = d.finish();
-    po.nEvents = d.nEvents; po.nChars = d.nChars; po.nErr = d.nErr; po.nFatal = d.nFatal; po.reads = src.reads; po.rlog = st.log;
+    po.nEvents = d.nEvents; po.nChars = d.nChars; po.nErr = d.nErr; po.nFatal = d.nFatal; po.reads = csrc.reads; po.rlog = st.log;
 }
 
 // main loop helper: handlers register by "kind"
@@ -746,6 +777,7 @@ static int serve(std::map<std::string, Handler>& hs) {
         if (it == hs.end()) { writeResp(out, "EXC\tBADKIND\n"); continue; }
         writeResp(out, it->second(r));
     }
+    { std::string& d = scratchDir(); unlink((d + "/doc.xml").c_str()); unlink((d + "/stdin.xml").c_str()); rmdir(d.c_str()); }
     return 0;
 }
 
